@@ -2,6 +2,7 @@ package vivid
 
 import (
 	"fmt"
+	"reflect"
 	"time"
 
 	"github.com/kercylan98/vivid/internal/messages"
@@ -13,6 +14,40 @@ func init() {
 	messages.RegisterInternalMessage[*OnKilled]("OnKilled", onKilledReader, onKilledWriter)
 	messages.RegisterInternalMessage[*PipeResult]("PipeResult", pipeResultReader, pipeResultWriter)
 	messages.RegisterInternalMessage[*Pong]("Pong", onPongReader, onPongWriter)
+}
+
+// actorRefDecoder 由 internal/actor 在 init 中通过 RegisterActorRefDecoder 注册，
+// 用于将线路上的 (address, path) 还原为可用于投递消息的 ActorRef。
+var actorRefDecoder func(address, path string) (ActorRef, error)
+
+// RegisterActorRefDecoder 供 internal/actor 在 init 中调用，注册「根据地址与路径构造 ActorRef」的函数。
+// 内置消息中的 ActorRef 字段（如 OnKill.Killer、OnKilled.Ref）以 (address, path) 的形式在网络间传输。
+func RegisterActorRefDecoder(fn func(address, path string) (ActorRef, error)) {
+	actorRefDecoder = fn
+}
+
+// writeActorRef 将 ActorRef 以 (address, path) 写入，nil 写为一对空字符串。
+func writeActorRef(writer *messages.Writer, ref ActorRef) error {
+	var address, path string
+	if rv := reflect.ValueOf(ref); rv.IsValid() && !(rv.Kind() == reflect.Ptr && rv.IsNil()) {
+		address, path = ref.GetAddress(), ref.GetPath()
+	}
+	return writer.WriteFrom(address, path)
+}
+
+// readActorRef 读取由 writeActorRef 写入的 ActorRef，一对空字符串还原为 nil。
+func readActorRef(reader *messages.Reader) (ActorRef, error) {
+	var address, path string
+	if err := reader.ReadInto(&address, &path); err != nil {
+		return nil, err
+	}
+	if address == "" && path == "" {
+		return nil, nil
+	}
+	if actorRefDecoder == nil {
+		return nil, fmt.Errorf("actor ref decoder is not registered")
+	}
+	return actorRefDecoder(address, path)
 }
 
 // CustomMessageReader 定义了自定义消息的读取函数签名，用于自定义消息的解码过程。
@@ -106,14 +141,20 @@ type OnKill struct {
 	Poison bool     // 是否采用毒杀模式，true 时立即销毁，不处理剩余队列，false 时常规优雅下线。
 }
 
-func onKillReader(message any, reader *messages.Reader, codec messages.Codec) error {
+func onKillReader(message any, reader *messages.Reader, codec messages.Codec) (err error) {
 	m := message.(*OnKill)
-	return reader.ReadInto(&m.Killer, &m.Reason, &m.Poison)
+	if m.Killer, err = readActorRef(reader); err != nil {
+		return err
+	}
+	return reader.ReadInto(&m.Reason, &m.Poison)
 }
 
 func onKillWriter(message any, writer *messages.Writer, codec messages.Codec) error {
 	m := message.(*OnKill)
-	return writer.WriteFrom(m.Killer, m.Reason, m.Poison)
+	if err := writeActorRef(writer, m.Killer); err != nil {
+		return err
+	}
+	return writer.WriteFrom(m.Reason, m.Poison)
 }
 
 // Pong 表示 Ping 消息的响应。
@@ -162,14 +203,15 @@ type OnKilled struct {
 	Ref ActorRef // 被终止的 ActorRef
 }
 
-func onKilledReader(message any, reader *messages.Reader, codec messages.Codec) error {
+func onKilledReader(message any, reader *messages.Reader, codec messages.Codec) (err error) {
 	m := message.(*OnKilled)
-	return reader.ReadInto(&m.Ref)
+	m.Ref, err = readActorRef(reader)
+	return err
 }
 
 func onKilledWriter(message any, writer *messages.Writer, codec messages.Codec) error {
 	m := message.(*OnKilled)
-	return writer.WriteFrom(m.Ref)
+	return writeActorRef(writer, m.Ref)
 }
 
 type StreamEvent any
